@@ -12,7 +12,7 @@ META = {
     "id": "C19",
     "coq_targets": ["Props/C19.vo", "Extract/Extract_C19.vo"],
     "technique": "Coq proof (induction over the frame list; fold invariant for the by-track painter) + differential correspondence of the extracted model with the implementation",
-    "level_text": "Theorems C19_unique_partition / C19_unique_global / C19_unique_multiseg / C19_by_track / C19_by_track_same_label hold for every label array of every size (unbounded Z labels); the hand-written model is tied to /repo by running the extracted model and the implementation on the same generated arrays and comparing the outputs element by element. C19_unique_is_generated / C19_unique_multiseg_is_generated / C19_by_track_is_generated: the three model functions equal, for all arguments, the code translated on every run from the current _segmentation_utils.py (Gen/LabelUtils_gen.v; fail-closed translator over the numpy combinators of Model/NpRt.v).",
+    "level_text": "Theorems C19_unique_partition / C19_unique_global / C19_unique_multiseg / C19_by_track / C19_by_track_same_label hold for every label array of every size (unbounded Z labels); the hand-written model is tied to /repo by running the extracted model and the implementation on the same generated arrays and comparing the outputs element by element. C19_unique_is_generated / C19_unique_multiseg_is_generated / C19_by_track_is_generated: the three model functions equal, for all arguments, the code translated on every run from the current _segmentation_utils.py (Gen/LabelUtils_gen.v; fail-closed translator over the numpy combinators of Model/NpRt.v). The implementation is called on three memory layouts of every generated array (fresh C-ordered copy, Fortran-ordered copy, transposed view), since reshape returns a view for the first and a copy for the others.",
     "level_note": "Trusted: Coq kernel, extraction (ExtrOcamlBasic), OCaml driver, Python harness. Modelled not verified: numpy elementwise ops and reshape, networkx weakly_connected_components (its answer is an input of the model; the theorem assumes only that (time, seg id) pairs are distinct), uint64 wrap-around is out of scope (labels are unbounded Z in the model). Tied to the source in a second way: _segmentation_utils.py is re-translated on every run (harness/translate_numpy_utils.py, fail closed; numpy combinators Model/NpRt.v, trusted one-liners) and proved equal to the model for all arguments (Proofs/LabelUtilsTie.v).",
     "design_ref": "DESIGN.md section 9 (C19)",
     "assumptions": ["labels are non-negative and small enough that adding the running maximum does not wrap in uint64",
@@ -125,6 +125,20 @@ def oracle_by_track(g, seg, out):
     return None
 
 
+def _layout(rng, a, stats):
+    """the same values in one of the memory layouts callers hand over: a fresh C-ordered copy, a Fortran-ordered
+    copy, or a transposed view (np.moveaxis of an array stored with the first two axes exchanged) - reshape
+    returns a view for the first and a copy for the others"""
+    r = rng.random()
+    if r < 0.5 or a.ndim < 2:
+        return a.copy()
+    if r < 0.75:
+        stats["layout_fortran"] = stats.get("layout_fortran", 0) + 1
+        return np.asfortranarray(a)
+    stats["layout_moveaxis_view"] = stats.get("layout_moveaxis_view", 0) + 1
+    return np.moveaxis(np.ascontiguousarray(np.moveaxis(a, 1, 0)), 1, 0)
+
+
 def run(ctx):
     from funtracks.utils._segmentation_utils import ensure_unique_labels, relabel_segmentation_with_track_id
 
@@ -162,13 +176,13 @@ def run(ctx):
     for (kind, a, g), line, mo in zip(cases, lines, mout):
         stats[kind] += 1
         if kind == "U":
-            out = ensure_unique_labels(a.copy())
+            out = ensure_unique_labels(_layout(rng, a, stats))
             io = pframes(out)
             bad = oracle_unique(a, np.asarray(out).astype(np.int64))
             stats["frames_empty"] += int(sum(1 for t in range(a.shape[0]) if not a[t].any()))
             nontrivial = len({int(x) for x in a.reshape(-1)}) > 1 and a.shape[0] > 1
         elif kind == "M":
-            out = ensure_unique_labels(a.copy(), multiseg=True)
+            out = ensure_unique_labels(_layout(rng, a, stats), multiseg=True)
             io = "|".join(pframes(h) for h in out)
             flat_in = a.reshape((-1, *a.shape[2:]))
             bad = oracle_unique(flat_in, np.asarray(out).astype(np.int64).reshape(flat_in.shape))
